@@ -36,7 +36,7 @@ func VerifC04_UpJoinMIC(kind int) {
 	err := p.SetUplinkJoinMIC(AES128Key(key))
 	verifAssert(err == nil, "SetUplinkJoinMIC: no error")
 	verifAssert(p.MIC == MIC(want), "SetUplinkJoinMIC: MIC == AES-CMAC(key, MHDR|payload)[0..3]")
-	carried := verifNondet4("carriedMIC")
+	carried := specCarriedMIC(want)
 	p.MIC = MIC(carried)
 	ok, err := p.ValidateUplinkJoinMIC(AES128Key(key))
 	verifAssert(err == nil, "ValidateUplinkJoinMIC: no error")
@@ -65,7 +65,7 @@ func VerifC04_DownJoinMIC(cf int) {
 	err := p.SetDownlinkJoinMIC(JoinType(jrType), joinEUI, nonce, AES128Key(key))
 	verifAssert(err == nil, "SetDownlinkJoinMIC: no error")
 	verifAssert(p.MIC == MIC(want), "SetDownlinkJoinMIC: MIC == spec value (OptNeg selects the 1.1 form with JoinReqType|JoinEUI|DevNonce)")
-	carried := verifNondet4("carriedMIC")
+	carried := specCarriedMIC(want)
 	p.MIC = MIC(carried)
 	ok, err := p.ValidateDownlinkJoinMIC(JoinType(jrType), joinEUI, nonce, AES128Key(key))
 	verifAssert(err == nil, "ValidateDownlinkJoinMIC: no error")
